@@ -92,6 +92,9 @@ def tmp_path(name):
     global _tmpdir
     if _tmpdir is None:
         _tmpdir = tempfile.mkdtemp(prefix='c18-')
+        import atexit
+        import shutil
+        atexit.register(shutil.rmtree, _tmpdir, True)      # scratch of this run only; nothing a later command needs
     return os.path.join(_tmpdir, name)
 
 
